@@ -93,6 +93,13 @@ def api_lambdas():
     out["broadcast_to/y"] = pt.broadcast_to(y, (3, 4))
     out["broadcast_to/n"] = pt.broadcast_to(n, (2, 3, 5))
     out["broadcast_to/s"] = pt.broadcast_to(s, (2, 2))
+    # NumPy-typed scalar operands whose dtype is not the result dtype (wrapped in a cast by the front end)
+    k64 = pt.make_placeholder("k64", (3, 4), np.int64)
+    I["k64"] = k64
+    out["npscalar/f64+f32"], out["npscalar/f32*f64"] = x + np.float32(2.5), np.float32(0.5) * x
+    out["npscalar/f64*i64"], out["npscalar/i64+i32"] = x * np.int64(3), k64 + np.int32(5)
+    out["npscalar/i32-i64"], out["npscalar/f64/i32"] = np.int32(7) - k64, x / np.int32(2)
+    out["npscalar/less"], out["npscalar/pow"] = pt.less(x, np.float32(0.5)), x ** np.int64(2)
     out["astype/i2f"] = m.astype(F64)
     out["astype/f2c"] = x.astype(C128)
     out["zeros_like"] = pt.zeros_like(x)
